@@ -44,6 +44,13 @@ MODEL_IMPORT = 'From Coq Require Import Floats.\nFrom Bardolph Require Import Io
 DOC_REGISTERS = ('hue', 'saturation', 'brightness', 'kelvin', 'duration')
 DEV_CODES = {'on all': 1, 'off all': 2, 'set all': 3}
 UNKNOWN = object()
+# candidate repairs the model can put in one at a time (Run/C19Model.v with_repair), and the
+# signature of a violation that the repair removes
+REPAIR_GROUPS = [14, 16, 36, 35, 12, 0]
+GROUP_SIGS = {14: 'C19/separator-lost-between-prints', 16: 'C19/space-after-line-break',
+              36: 'C19/print-inside-printf-argument-call', 35: 'C19/carry-over-into-next-job',
+              12: 'C19/pending-values-survive-into-next-run',
+              0: 'C19/several-known-defects-combined'}
 
 
 # ---------------------------------------------------------------------------
@@ -764,13 +771,16 @@ def classify(job, impl, spec, alone_ok=None):
         if ti.replace(' ', '') == ts.replace(' ', ''):
             if len(ti) < len(ts):
                 return 'C19/separator-lost-between-prints'
-            if ti.startswith(' ') and not ts.startswith(' ') or '\n ' in ti and ti.count('\n ') > ts.count('\n '):
+            i = 0
+            while i < len(ts) and ti[i] == ts[i]:
+                i += 1
+            while i > 0 and ti[i - 1] == ' ':
+                i -= 1
+            if i == 0 or ti[i - 1] == '\n':
                 return 'C19/space-after-line-break'
             return 'C19/extra-separator'
         if ti.replace('\n', '') == ts.replace('\n', ''):
             return 'C19/line-break-differs'
-        if has_nested(job):
-            return 'C19/print-inside-printf-argument-call'
         return 'C19/output-text-differs'
     if mi != ms:
         return 'C19/output-order'
@@ -990,6 +1000,7 @@ def check_cases(ctx, cases, model_ok, tag='c19'):
     spec = eval_cases(tag + 's', SPEC_IMPORT, 'spec_cases', terms, njobs)
     model = eval_cases(tag + 'm', MODEL_IMPORT, 'model_cases', terms, njobs) if model_ok else None
     status = []
+    failing = []
     for ci, (case, obs) in enumerate(kept):
         case_ok = True
         for ji, (job, o) in enumerate(zip(case, obs)):
@@ -1002,29 +1013,56 @@ def check_cases(ctx, cases, model_ok, tag='c19'):
                     ctx.nontriv(('job', o['src']))
                 if impl != sp:
                     case_ok = False
-                    alone_ok = None
-                    if ji > 0:
-                        try:
-                            solo = run_case([dict(job, again=False)])[0]['result']
-                            alone_ok = (solo == sp)
-                        except Exception:
-                            alone_ok = None
-                    sig = classify(job, impl, sp, alone_ok)
-                    fi, ti, mi = parse_result(impl)
-                    fs, ts, ms = parse_result(sp)
-                    what = 'job %d of %s writes %r%s, the specification says %r' % (
-                        ji + 1, [job_source(j).strip().replace('\n', ' ; ') for j in case][:ji + 1],
-                        ti, ' and aborts' if fi == 'A' else '', ts)
-                    if ti == ts and mi != ms:
-                        what += ' (order relative to device commands: %s vs %s)' % (mi, ms)
-                    ctx.counterexample(sig, what, {'case': case_payload(case), 'job': ji, 'expected': sp, 'actual': impl})
+                    failing.append((ci, ji))
             else:
                 ctx.extra['outside_spec_jobs'] = ctx.extra.get('outside_spec_jobs', 0) + 1
             if model is not None and impl != model[ci][ji]:
                 case_ok = False
-                ctx.broken_tie('correspondence', 'stdout text vs model',
-                               {'scripts': [job_source(j) for j in case], 'job': ji, 'implementation': impl, 'model': model[ci][ji]})
+                n_bad = ctx.extra.get('model_disagreements', 0) + 1
+                ctx.extra['model_disagreements'] = n_bad
+                if n_bad <= 3:
+                    ctx.broken_tie('correspondence', 'stdout text vs model',
+                                   {'scripts': [job_source(j) for j in case], 'job': ji, 'implementation': impl, 'model': model[ci][ji]})
         status.append(case_ok)
+    # classification: which single candidate repair makes the model agree with the specification
+    variants = {}
+    if failing and model_ok:
+        cis = sorted({ci for ci, _ in failing})[:250]
+        try:
+            res = eval_cases(tag + 'v', MODEL_IMPORT, 'variant_cases', [terms[ci] for ci in cis],
+                             [len(REPAIR_GROUPS) * njobs[ci] for ci in cis], per_file=25)
+            variants = dict(zip(cis, res))
+        except RuntimeError:
+            variants = {}
+    for ci, ji in failing:
+        case, obs = kept[ci]
+        job, o, sp, impl = case[ji], obs[ji], spec[ci][ji], obs[ji]['result']
+        sig = None
+        if ci in variants and model is not None and impl == model[ci][ji]:
+            # the model of this tree explains the output; name the repair that removes the difference
+            n = njobs[ci]
+            for k, g in enumerate(REPAIR_GROUPS):
+                if variants[ci][k * n + ji] == sp:
+                    sig = GROUP_SIGS[g]
+                    break
+        if sig is None:
+            alone_ok = None
+            if ji > 0:
+                try:
+                    alone_ok = (run_case([dict(job, again=False)])[0]['result'] == sp)
+                except Exception:
+                    alone_ok = None
+            sig = classify(job, impl, sp, alone_ok)
+        if any(c['sig'] == sig for c in ctx.counterexamples):
+            continue
+        fi, ti, mi = parse_result(impl)
+        fs, ts, ms = parse_result(sp)
+        what = 'job %d of %s writes %r%s, the specification says %r' % (
+            ji + 1, [job_source(j).strip().replace('\n', ' ; ') for j in case][:ji + 1],
+            ti, ' and aborts' if fi == 'A' else '', ts)
+        if ti == ts and mi != ms:
+            what += ' (order relative to device commands: %s vs %s)' % (mi, ms)
+        ctx.counterexample(sig, what, {'case': case_payload(case), 'job': ji, 'expected': sp, 'actual': impl})
     return status
 
 
@@ -1058,7 +1096,12 @@ def shrink(ctx, model_ok):
                     cands.append(best[:ji] + [nj] + best[ji + 1:])
                 if len(best) > 1 and not job.get('again') and not (ji + 1 < len(best) and best[ji + 1].get('again')):
                     cands.append(best[:ji] + best[ji + 1:])
-            cands = [cd for cd in cands if any(s['k'] != 'other' for j in cd for s in j['stmts'])][:40]
+                if job['prelude']:
+                    cands.append(best[:ji] + [dict(job, prelude=[])] + best[ji + 1:])
+                    if len(job['prelude']) > 1:
+                        for pi in range(len(job['prelude'])):
+                            cands.append(best[:ji] + [dict(job, prelude=job['prelude'][:pi] + job['prelude'][pi + 1:])] + best[ji + 1:])
+            cands = [cd for cd in cands if any(s['k'] != 'other' for j in cd for s in j['stmts'])][:60]
             if not cands:
                 break
             sub = common.Ctx(ctx.prop, ctx.tier, ctx.seed)
